@@ -405,6 +405,31 @@ def run(ctx):
     else:
         r10.check(not gap, "cache-key-covers-encoded-fields", "the cache key covers %s, all the client-supplied fields the encoder writes" % sorted(encf),
                   "Parse.%s is written to the server from the cached message but is not part of the cache key (%s): a hostile Parse that differs only there is cached first and every other client preparing the same text is answered with the server's error for the hostile message" % (gap, sorted(hashf)))
+    # before authentication the peer is anybody: what is read from it there has its own, small bounds (the startup packet, the PasswordMessage). The reader
+    # of ordinary messages, read_message, admits up to the post-authentication maximum and commits that much memory before the first body byte arrives -
+    # it is not reachable from the pre-authentication functions (through pgcat::messages helpers), only from Client::handle and the server side
+    PRE = ["pgcat::client::Client::startup::{closure#0}", "pgcat::client::startup_tls::{closure#0}", "pgcat::client::get_startup::{closure#0}", "pgcat::client::Client::cancel::{closure#0}"]
+    seen_pre = set()
+    todo_pre = [n_ for n_ in PRE if F.body(n_) is not None]
+    r5.check(len(todo_pre) >= 3, "pre-auth-functions", "%d pre-authentication functions found" % len(todo_pre), "pre-authentication functions not found (%d)" % len(todo_pre))
+    hits = []
+    while todo_pre:
+        n_ = todo_pre.pop()
+        if n_ in seen_pre:
+            continue
+        seen_pre.add(n_)
+        b_ = F.body(n_)
+        if b_ is None:
+            continue
+        for c in b_.calls("re:^pgcat::messages::"):
+            if c.name == "pgcat::messages::read_message":
+                hits.append(c.where())
+            for cand in (c.name, c.name + "::{closure#0}"):
+                if F.body(cand) is not None and cand not in seen_pre:
+                    todo_pre.append(cand)
+    r5.check(not hits, "pre-auth-reads-are-small", "read_message (bounded by the post-authentication maximum) is not reachable from the pre-authentication functions",
+             "a peer that has not authenticated is read with read_message (%s): 5 bytes - a type and a length just under the maximum - make pgcat allocate and zero that much memory per socket and wait for a body that never comes; "
+             "a few dozen sockets take the pooler down for everybody" % hits[:2])
     r14 = ctx.rule("C11-R14", "the one place where bytes a client chose (its start-up parameters) become SQL that pgcat runs on its own behalf, Server::sync_parameters: every value sits in an E'..' constant with both the "
                    "backslash and the quote escaped, so that no value can end its constant - how a plain '..' constant reads a backslash depends on standard_conforming_strings, which the same client chooses", floor=2)
     from c12 import quoting_clauses
